@@ -1,4 +1,4 @@
-"""contract: prtpy/packing/cflz_covering.py::threequarters  (T2: every number of items up to the bound, ALL real values and bin sizes;
+"""contract: prtpy/packing/cflz_covering.py::threequarters  (T2: every number of items up to the bound, ALL positive integer values and bin sizes;
 the REAL manager class is executed, not the abstract one)"""
 from .common import *
 from .binners import VALUEOF
@@ -19,11 +19,14 @@ class ThreeQuarters(FunctionContract):
 
     def make_args(self, it, n):
         self._n = n
-        B = z3.Real("binsize")
-        it.assume(B > 0)
+        # C05's domain: positive INTEGER values and bin sizes (also what makes the float arithmetic of the real run exact in the cross-check)
+        Bi = z3.Int("binsize")
+        it.assume(Bi > 0)
+        B = z3.ToReal(Bi)
         xs = [ItemV(z3.Const(f"x{i}", L.Item)) for i in range(n)]
-        for x in xs:
-            it.assume(L.val(x.t) > 0)
+        for i, x in enumerate(xs):
+            v = z3.Int(f"v{i}")
+            it.assume(z3.And(L.val(x.t) == z3.ToReal(v), v > 0))
         cls = it.get_function("prtpy/binners.py::BinnerKeepingContents")
         self._xs, self._B = xs, B
         return {"binner": it.instantiate(cls, [VALUEOF], {}), "binsize": SV(B), "items": PList(list(xs))}
